@@ -135,6 +135,14 @@ class Arena:
                 if d.send_pid not in gs.pending:
                     break                      # really blocked in select
         left = self.todo_ids()
+        if left:
+            # a lost wake-up stays lost for 1500 s; a merely slow machine catches up: give it time before judging
+            end = time.time() + 5.0
+            while time.time() < end and self.todo_ids():
+                gs.poll(0.05); d.pump(0.0)
+                for pid in list(gs.pending): gs.ack(pid)
+            left = self.todo_ids()
+            if not left: self.idle()
         return dict(applied=applied, exit=rcs, todo_left=left, trace=[(op) for (_, op, _) in gs.trace[t0:]][:80])
     def recover(self):
         """after a lost wake-up the daemon is inside the real select: wake it with a plain injection"""
